@@ -4,7 +4,7 @@ Require Import Calc.Sem.
 Require Import Calc.Base Calc.Bytecode Calc.Value Calc.FloatText Calc.Ast Calc.Resolve Calc.Compile Calc.VM
         Calc.Session Calc.CorrSession Calc.SemSession Calc.CompileWf
         Calc.ExprSem Calc.ExprAssign Calc.ExprLen Calc.ExprSession Calc.LExprSem Calc.StmtSem Calc.StmtRel
-        Calc.StmtTop Calc.StmtDef Calc.StmtMixed Calc.StmtStart Calc.CorrFragment.
+        Calc.StmtTop Calc.StmtDef Calc.StmtMixed Calc.StmtModes Calc.StmtStart Calc.CorrFragment.
 Require Import Lia.
 Open Scope Z_scope.
 
@@ -113,4 +113,22 @@ Proof.
   { intros t f k Hin Hl. exact (session_names_has (t1 :: r) t f k (or_intror Hin) Hl). }
   split; [|exact H2].
   exact (checked_pair_is_covered (session_names (t1 :: r)) _ _ _ Es (session_names_builtins _) H1).
+Qed.
+
+(* C16: value mode on the machine the first tree leaves in value mode, file mode on the machine it leaves in
+   file mode — the two-machine session theorem holds of the counted prefix *)
+Theorem covered_modes_sound mc0 t1 r :
+  machine_new = Some mc0 ->
+  let mc1 := fst (run_tree false mc0 t1) in
+  let mc2 := fst (run_tree true mc0 t1) in
+  let pre := firstn (covered_modes (t1 :: r)) r in
+  pair false true [] [] (self_tab mc1) (self_tab mc2) mc1 mc2 (map item_of pre) /\ map item_tree (map item_of pre) = pre.
+Proof.
+  intros Hm. cbv zeta. unfold covered_modes. rewrite Hm.
+  destruct (start_ok_modes (fst (run_tree false mc0 t1)) (fst (run_tree true mc0 t1))) eqn:Es; [|split; [exact I|reflexivity]].
+  set (funs := match lambda_def t1 with Some f => [f] | None => [] end).
+  destruct (prefix_ok_sound (session_names (t1 :: r)) r funs) as [H1 H2].
+  { intros t f k Hin Hl. exact (session_names_has (t1 :: r) t f k (or_intror Hin) Hl). }
+  split; [|exact H2].
+  exact (checked_modes_are_covered (session_names (t1 :: r)) _ _ _ Es (session_names_builtins _) H1).
 Qed.
